@@ -2025,6 +2025,9 @@ pub struct StreamWriter<W> {
     write_options: IpcWriteOptions,
     /// Whether the writer footer has been written, and the writer is finished
     finished: bool,
+    /// Whether writing a message to the underlying writer failed: the stream then ends in a
+    /// partial message and cannot be continued or finished
+    failed: bool,
     /// Keeps track of dictionaries that have been written
     dictionary_tracker: DictionaryTracker,
 
@@ -2081,6 +2084,7 @@ impl<W: Write> StreamWriter<W> {
             writer,
             write_options,
             finished: false,
+            failed: false,
             dictionary_tracker,
             data_gen,
             ipc_write_context: IpcWriteContext::default(),
@@ -2094,14 +2098,23 @@ impl<W: Write> StreamWriter<W> {
                 "Cannot write record batch to stream writer as it is closed".to_string(),
             ));
         }
+        if self.failed {
+            return Err(ArrowError::IpcError(
+                "Cannot write record batch to stream writer as a previous write failed".to_string(),
+            ));
+        }
 
-        self.data_gen.write(
+        let result = self.data_gen.write(
             batch,
             &mut self.dictionary_tracker,
             &self.write_options,
             &mut self.ipc_write_context,
             &mut self.writer,
-        )?;
+        );
+        if let Err(ArrowError::IoError(_, _)) = &result {
+            self.failed = true;
+        }
+        result?;
         Ok(())
     }
 
@@ -2110,6 +2123,11 @@ impl<W: Write> StreamWriter<W> {
         if self.finished {
             return Err(ArrowError::IpcError(
                 "Cannot write footer to stream writer as it is closed".to_string(),
+            ));
+        }
+        if self.failed {
+            return Err(ArrowError::IpcError(
+                "Cannot write footer to stream writer as a previous write failed".to_string(),
             ));
         }
 
